@@ -262,13 +262,14 @@ def mutate_case(rng, case):
 
 CLAIMED = True
 LEVEL_TEXT = ("Theorems over the model, for every width w (unbounded, by induction): the ripple-carry adder outputs (a+b+cin) mod 2^w and "
-              "the carry bit for both carry options; mux(w) outputs in_i for i = value of the select lines and 0 for i >= w; half/full adder; "
-              "clog2 = ceil(log2), ValueError below 1, fuel never exhausted; bin_to_int(int_to_bin(i,w,lend),lend) = i for every i "
-              "(the code never truncates) with exactly w entries when i < 2^w; adder and mux are lint-clean for every width. The model equals what the generators "
-              "return (graph equality) on every generated width; independently the Coq oracle evaluates the arithmetic specification "
-              "on the returned circuits for all input vectors and lints them.")
-LEVEL_NOTE = ("popcount: the all-width statement is kept visible as C13_popcount_full (not proved); proved is the part for widths <= 3 by "
-              "exhaustive evaluation of the model plus the exact-sum theorem for its building block adder(aw, carry_out=True); beyond that popcount is decided "
-              "per generated width (<= 6) by the oracle, with graph equality and a Python simulation pre-screen up to 64 as support only. "
-              "Trusted: Coq kernel + vm_compute, std++, Base/Sem.v semantics of gate types, harness dump/printer.")
+              "the carry bit for both carry options; mux(w) outputs in_i for i = value of the select lines and 0 for i >= w; popcount(w) outputs "
+              "the binary count of ones; half/full adder; clog2 = ceil(log2), ValueError below 1, fuel never exhausted; "
+              "bin_to_int(int_to_bin(i,w,lend),lend) = i for every i (the code never truncates) with exactly w entries when i < 2^w; "
+              "adder, mux and popcount are lint-clean for every width. The model equals what the generators return (graph equality) on "
+              "every generated width (up to 64 in the thorough tier); independently the Coq oracle evaluates the arithmetic specification "
+              "on the returned circuits for all input vectors (small widths) and lints them.")
+LEVEL_NOTE = ("No statement is partial. Error branches modelled and checked: clog2(n<1) and mux(0) raise ValueError, popcount(0) IndexError, "
+              "bin_to_int(()) ValueError; negative i for int_to_bin is outside the property. The Python simulation pre-screen at widths up "
+              "to 64 (thorough) is additional support only, not the proof. Trusted: Coq kernel + vm_compute, std++, Base/Sem.v semantics of "
+              "gate types, LintProofs (C20) for lint_clean, harness dump/printer; the tie model = code is the per-run graph-equality check.")
 TECHNIQUE = "Coq proofs by induction on the width over a name-exact model + graph-equality correspondence + vm_compute oracle on returned circuits"
